@@ -24,11 +24,13 @@ def rows_by_pt(rows):
 def spec_check(kind, rows, lf, ops, obs, impl):
     out = []
     auto_save = True
+    synced = True          # the adapter's rows equalled the in-memory policy after the previous call
     for i, (op, o) in enumerate(zip(ops, obs)):
         c = op[0]
         res, acalls, db = o[0], o[1], rows_by_pt(o[6])
         mem = {0: o[3], 1: o[4], 2: o[5]}
         tag = KNOWN_UPD_FILTERED if c == 8 else None
+        was_synced, synced = synced, all(sorted(db[pt]) == sorted(mem[pt]) for pt in (0, 1, 2))
         if c == 35:
             auto_save = bool(op[1])
             continue
@@ -50,6 +52,11 @@ def spec_check(kind, rows, lf, ops, obs, impl):
                 continue
             if not ok and acalls:
                 out.append((i, "a call that reported failure / no change told the adapter to change something", tag))
+                return out
+            if not ok and was_synced and not synced and c != 8:
+                # the headline: the store MIRRORS memory.  A call that reported failure told the adapter nothing (checked
+                # above), so it must not have changed memory either
+                out.append((i, "a call that reported failure / no change left the in-memory policy different from the adapter's rows", tag))
                 return out
             if ok:
                 for pt in (0, 1, 2):
@@ -141,6 +148,24 @@ def short_rule_probe(chk):
             mgmt.run_cases(chk, kind, [([], True, ops)], spec_check, label=f"short-grouping-rule-{kn}", compare_model=False)
 
 
+def odd_priority_probe(chk):
+    """a loaded explicit-priority model and a rule whose priority field is not an integer (the insertion step cannot
+    place it): whatever the call reports, store and memory must mirror each other right afterwards (no reload: the
+    bundled sort refuses to compare such a value with numbers, so every later load_policy fails by design)"""
+    A = mgmt.ATOMS.a
+    n = 0
+    for kn in ("prio", "prio_rbac"):
+        kind = mgmt.KINDS[kn]
+        rows = [(0, [5, A("alice"), A("data1"), A("read"), mgmt.ALLOW]), (0, [10, A("bob"), A("data2"), A("write"), mgmt.DENY])]
+        for odd in ("1.5", "high", "-"):
+            r = [A(odd), A("alice"), A("data1"), A("read"), mgmt.DENY]
+            for ops in ([(1, 0, r)], [(2, 0, [r])], [(1, 0, r), (3, 0, r)],
+                        [(1, 0, [7, A("carol"), A("data1"), A("read"), mgmt.ALLOW]), (1, 0, r), (1, 0, r)]):
+                mgmt.run_cases(chk, kind, [(rows, True, ops)], spec_check, label=f"non-numeric-priority-{kn}", compare_model=False)
+                n += 1
+    chk.extra.setdefault("strata", {})["non_numeric_priority_probe"] = n
+
+
 def reload_model_probe(chk):
     """auto-save is the USER's switch: with auto-save off the adapter is not written until save_policy - also after the
     model (and the policy) were reloaded in between.  Implementation-level SPEC on an enforcer built from a model file."""
@@ -183,6 +208,7 @@ def run(chk, n):
     known_probe(chk)
     short_rule_probe(chk)
     reload_model_probe(chk)
+    odd_priority_probe(chk)
     for kn in ("acl", "rbac", "dom", "rbac_res", "prio"):
         cases = make_cases(rng, kn, n)
         by_kind = {}
